@@ -173,14 +173,20 @@ func (c06Stream) Generate(rng *rand.Rand, n int, thorough bool) []Case {
 			// a route is registered while a handler is blocked; requests sent afterwards must still be dispatched
 			cs = append(cs, Case{Line: fmt.Sprintf("c06 conns=2 n=2 mode=plain seed=%d routes=all latereg=1", rng.Intn(1<<30)), Kind: "latereg"})
 			continue
+		case 3:
+			// a handler panics (gldap recovers the request); the client then uses that message id again, as it may
+			cs = append(cs, Case{Line: fmt.Sprintf("c06 conns=1 n=2 mode=plain seed=%d routes=all panicreuse=1", rng.Intn(1<<30)), Kind: "panicreuse"})
+			continue
 		case 2:
 			// a handler is stuck INSIDE Write (its client is not reading a large result yet); the requests behind it
 			// must still reach their handlers
 			cs = append(cs, Case{Line: fmt.Sprintf("c06 conns=1 n=%d mode=%s seed=%d routes=all stalled=1", 2+rng.Intn(4), []string{"plain", "tls"}[rng.Intn(2)], rng.Intn(1<<30)), Kind: "stalled"})
 			continue
 		}
-		cs = append(cs, Case{Line: fmt.Sprintf("c06 conns=%d n=%d mode=%s seed=%d routes=%s", k, np, []string{"plain", "plain", "tls", "starttls"}[rng.Intn(4)], rng.Intn(1<<30),
-			[]string{"all", "all", "default", "none"}[rng.Intn(4)]), Kind: "pipeline"})
+		// (sameid: a careless client numbers all its pipelined requests alike; they are served like any others, and
+		// numbered by arrival)
+		cs = append(cs, Case{Line: fmt.Sprintf("c06 conns=%d n=%d mode=%s seed=%d routes=%s sameid=%d", k, np, []string{"plain", "plain", "tls", "starttls"}[rng.Intn(4)], rng.Intn(1<<30),
+			[]string{"all", "all", "default", "none"}[rng.Intn(4)], rng.Intn(4)/3), Kind: "pipeline"})
 	}
 	return cs
 }
@@ -198,6 +204,9 @@ func (c06Stream) Impl(c Case) string {
 	}
 	if p["stalled"] == "1" {
 		return c06Stalled(n, mode)
+	}
+	if p["panicreuse"] == "1" {
+		return c06PanicReuse()
 	}
 	rc := &recorder{}
 	var all sync.WaitGroup
@@ -239,7 +248,11 @@ func (c06Stream) Impl(c Case) string {
 		for j := 0; j < n; j++ {
 			kind := opKinds[rng.Intn(len(opKinds))]
 			kinds[i] = append(kinds[i], kind)
-			buf = append(buf, opFrame(kind, int64(1000+j))...)
+			id := int64(1000 + j)
+			if p["sameid"] == "1" {
+				id = 1000
+			}
+			buf = append(buf, opFrame(kind, id)...)
 		}
 		if err := cl.send(buf); err != nil {
 			return "harness-error send: " + err.Error()
@@ -282,6 +295,10 @@ func (c06Stream) Impl(c Case) string {
 				verdict = fmt.Sprintf("ConnectionID %d is not positive", cid)
 			}
 			sort.Slice(es, func(a, b int) bool { return es[a].msgID < es[b].msgID })
+			if p["sameid"] == "1" {
+				// (arrival order cannot be read off the message ids: the numbers handed out are 1..n, each once)
+				sort.Slice(es, func(a, b int) bool { return es[a].reqID < es[b].reqID })
+			}
 			if len(es) != n {
 				verdict = fmt.Sprintf("conn %d: %d handlers for %d requests", cid, len(es), n)
 				break
@@ -351,6 +368,55 @@ func c06ReadTimeout(rt int) string {
 		}
 	}
 	rc.mu.Unlock()
+	cl.close()
+	sut.finish()
+	return verdict + "\t" + traceString(sut.tr.Snapshot(), "conn.", "loop.", "req.", "run.", "stop.")
+}
+
+// c06PanicReuse: the handler of the request with message id 1000 panics (the request is over, nothing was answered);
+// the client sends two more requests with that id, one after the other: each reaches its handler and is answered.
+func c06PanicReuse() string {
+	rc := &recorder{}
+	var n int32
+	h := func(w *gldap.ResponseWriter, r *gldap.Request) {
+		rc.enter(r)
+		if atomic.AddInt32(&n, 1) == 1 {
+			panic("handler panic injected by the harness")
+		}
+		answer(w, r)
+	}
+	sut, err := startServer(allRoutes(h, nil, nil), nil, nil)
+	if err != nil {
+		return "harness-error start: " + err.Error()
+	}
+	defer sut.tr.ReleaseAll()
+	cl, err := connect(sut.addr, "plain")
+	if err != nil {
+		return "harness-error connect: " + err.Error()
+	}
+	defer cl.close()
+	verdict := "ok"
+	_ = cl.send(opFrame("search", 1000))
+	sut.tr.Wait("req.done", 1, 1, 3*time.Second)
+	for j, kind := range []string{"bind", "search"} {
+		_ = cl.send(opFrame(kind, 1000))
+		f, err := cl.readFrame(3 * time.Second)
+		if err != nil || !strings.HasPrefix(strictView(f), "result id=1000 ") {
+			verdict = fmt.Sprintf("request %d, which reuses the message id of a request whose handler had panicked, was not answered by its handler: %v %s", j+2, err, strictView(f))
+			break
+		}
+		if !strings.Contains(strictView(f), " code=0") {
+			verdict = fmt.Sprintf("request %d, which reuses the message id of a request whose handler had panicked, was answered by somebody else: %s", j+2, strictView(f))
+			break
+		}
+	}
+	if verdict == "ok" {
+		rc.mu.Lock()
+		if len(rc.entries) != 3 {
+			verdict = fmt.Sprintf("%d handlers ran for 3 requests", len(rc.entries))
+		}
+		rc.mu.Unlock()
+	}
 	cl.close()
 	sut.finish()
 	return verdict + "\t" + traceString(sut.tr.Snapshot(), "conn.", "loop.", "req.", "run.", "stop.")
